@@ -64,7 +64,7 @@ REPLAY_PLANS = {
                   "thorough": [sim("U1", 800, 12, "Fam_C06", "NextSim_Kraus"), sim("U2", 300, 10, "Fam_C06", "NextSim_Kraus"),
                                sim("U3", 200, 10, "Fam_C06", "NextSim_Kraus")]}),
     "C08": dict(
-        cover=covers("F_Contr"),
+        cover=covers("F_Contr"), ctwins={"quick": (12, 14), "thorough": (240, 30)},
         actions={"expand", "contract", "setcontraction", "op1", "kraus"},
         exhaustive={"quick": [("U1", 3, "Fam_C08")], "thorough": [("U1", 4, "Fam_C08")]},
         simulate={"quick": [sim("U1", 96, 10, "Fam_C08", "NextSim_Struct"), sim("U2", 48, 10, "Fam_C08", "NextSim_Struct")],
@@ -128,6 +128,8 @@ TRACE_PLANS = {
                                sim("U3", 200, 12, "Fam_All", "NextSim_Op")]},
         drivers={"quick": (24, 20), "thorough": (400, 40)}),
     "C13": dict(
+        layout={"quick": (2, 1, 2, 3), "thorough": (2, 1, 3, 4)},
+        layout_faults={"quick": ["no_refresh_on_merge"], "thorough": ["no_refresh_on_merge", "dup_on_merge", "refresh_before_remove"]},
         cover={"quick": [cov("U2", "U2_ScriptsReg", "F_Reg", 300)], "thorough": [cov("U2", "U2_ScriptsReg", "F_Reg", 3000, depth=2)]},
         exhaustive={"quick": [("U4", 3, "Fam_All")], "thorough": [("U4", 4, "Fam_All")]},
         simulate={"quick": [sim("U2", 48, 11, "Fam_All", "NextSim_Struct"), sim("U3", 48, 11, "Fam_All", "NextSim_Struct")],
@@ -135,6 +137,8 @@ TRACE_PLANS = {
                                sim("U1", 200, 12, "Fam_All", "NextSim_Struct")]},
         drivers={"quick": (24, 20), "thorough": (400, 40)}),
     "C20": dict(
+        layout={"quick": (2, 1, 2, 3), "thorough": (2, 1, 3, 4)},
+        layout_faults={"quick": ["no_refresh_on_merge"], "thorough": ["no_refresh_on_merge", "dup_on_merge", "refresh_before_remove"]},
         cover={"quick": [cov("U2", "U2_ScriptsReg", "F_Reg", 300)], "thorough": [cov("U2", "U2_ScriptsReg", "F_Reg", 3000, depth=2)]},
         exhaustive={"quick": [("U4", 3, "Fam_All")], "thorough": [("U4", 4, "Fam_All")]},
         simulate={"quick": [sim("U2", 48, 11, "Fam_All", "NextSim_Comp"), sim("U3", 48, 11, "Fam_All", "NextSim_Comp")],
